@@ -47,7 +47,9 @@ UnsubOK(tr, f, u) ==
 \* unsubscribe again / after a terminal has no effect: that stimulus produces no callback and no source activity
 IdemOK(tr, f) ==
   \A i \in 1..Len(tr) : (tr[i].st.k \in {"unsub", "using", "using_panic"} /\ \E p \in 1..Len(f) : f[p].i < i /\ (IsTermCb(f[p], tr[i].st.a) \/ IsUnsubRet(f[p], tr[i].st.a)))
-                         => \A j \in 1..Len(tr[i].obs) : tr[i].obs[j].o \in {"mark", "ans"}
+                         => /\ \A j \in 1..Len(tr[i].obs) : tr[i].obs[j].o \in {"mark", "ans"}
+                            \* ... and takes nobody out of a hot source: the harness subjects hold as many observers as before the call
+                            /\ (i > 1 /\ tr[i].fin = "ok" /\ tr[i - 1].fin = "ok") => tr[i].cnt = tr[i - 1].cnt
 C05ok(tr) == LET f == Flat(tr) IN IdemOK(tr, f) /\ \A u \in Sinks : UnsubOK(tr, f, u)
 
 \* ---------------------------------------------------------------- C06: every way a subscription ends tears down everything upstream
